@@ -168,6 +168,9 @@ def run(ctx):
         # normalisation factors first matter at order 3)
         for n in range(4):
             jobs.append(("expect", variant, n, None, seeds))
+        # two-particle operator, requested on the SAME GroundState instance
+        # after the one-particle expectation values (orders 0-2)
+        jobs.append(("expect2", variant, 2, None, seeds[:1]))
     # the explicit series used by the workers are certified inside Coq
     # (Models/RSPTCheck.v, theorem C02_rspt_certificate)
     cert_cases, cert_meta = [], []
@@ -220,7 +223,8 @@ def _job(arg):
     out = []
     t0 = time.time()
     gs = adcgen.GroundState(adcgen.Operators(variant=variant))
-    need = {"energy": n, "amp": n, "norm": 3, "expect": n}[kind] or 0
+    need = {"energy": n, "amp": n, "norm": 3, "expect": n,
+            "expect2": n}[kind] or 0
     need = max(need, 1)
     rng = __import__("random").Random(hash((kind, variant, n, k)) & 0xffff)
     try:
@@ -235,6 +239,16 @@ def _job(arg):
             expr = Expr(expr).expand()
         elif kind == "norm":
             expr = [gs.norm_factor(m) for m in range(5)]
+        elif kind == "expect2":
+            one = [gs.expectation_value(m, 1) for m in range(n + 1)]
+            expr = [gs.expectation_value(m, 2) for m in range(n + 1)]
+            one_again = [gs.expectation_value(m, 1) for m in range(n + 1)]
+            if [str(a) for a in one] != [str(b) for b in one_again]:
+                return [{"type": "exception",
+                         "key": f"C02:expectation-not-stable:{variant}",
+                         "what": "one-particle expectation value changed "
+                                 "after a two-particle request on the same "
+                                 "instance"}]
         else:
             expr = gs.expectation_value(n, 1)
     except Exception as ex:
@@ -314,6 +328,42 @@ def _job(arg):
                     "replay": {"variant": variant, "order": q, "model": mdl,
                                "derived": val, "explicit": norm[q],
                                "expression": str(expr[q])[:600]}})
+        elif kind == "expect2":
+            d2 = {}
+            for p_, q_ in itertools.combinations(range(space.n), 2):
+                for r_, s_ in itertools.combinations(range(space.n), 2):
+                    v = numeric._h(seed, "d2", p_, q_, r_, s_) % 199 - 99
+                    for (a_, b_, s1) in ((p_, q_, 1), (q_, p_, -1)):
+                        for (c_, e_, s2) in ((r_, s_, 1), (s_, r_, -1)):
+                            d2[(a_, b_, c_, e_)] = s1 * s2 * v
+            model2 = make_model(space, psi, d2)
+            Nser, Sser = [], []
+            for q in range(n + 1):
+                Nser.append(sum(psi[m].dot(space.two_body_ten(d2, psi[q - m]))
+                                for m in range(q + 1)) % P)
+                Sser.append(sum(psi[m].dot(psi[q - m])
+                                for m in range(q + 1)) % P)
+            ratio = detspace.series_mul(
+                Nser, detspace.series_inv(Sser, n), n)
+            for q in range(n + 1):
+                try:
+                    val = evaluate(model2, expr[q])
+                except Exception as ex:     # e.g. a one-particle operator
+                    val = f"not evaluable as two-particle expression: {ex!r}"
+                out.append({
+                    "type": "case", "case_key": ("expectation2", q, seed),
+                    "nontrivial": True, "kind": "expectation_value_2p",
+                    "name": f"{variant} two-particle expectation value "
+                            f"order {q} (model {seed})",
+                    "ok": val == ratio[q],
+                    "key": f"C02:expectation_value_2particle:{variant}:"
+                           f"order{q}",
+                    "what": f"derived two-particle expectation value of "
+                            f"order {q} (requested after the one-particle "
+                            "ones on the same instance) differs from the "
+                            "explicit series",
+                    "replay": {"order": q, "n_particles": 2, "derived": val,
+                               "explicit": ratio[q], "model": mdl}})
         else:
             dmat = [[(numeric._h(seed, "d", p_, q_) % 1999 - 999)
                      for q_ in range(space.n)] for p_ in range(space.n)]
